@@ -3500,6 +3500,20 @@ fn validate_extension_declarations(
                 .with_context(|| format!("failed to get claims for sector {}", sc.sector_number))?;
             let first_drop = sc.maintain_claims.len();
 
+            // Each claim may be declared only once: the declared space is summed per listed claim,
+            // so a repeated id would stand in for a claim that is never fetched or checked.
+            let mut declared_claim_ids = BTreeSet::new();
+            for claim_id in &all_claim_ids {
+                if !declared_claim_ids.insert(*claim_id) {
+                    return Err(actor_error!(
+                        illegal_argument,
+                        "failed to validate declaration sector={}, claim={} is declared more than once",
+                        sc.sector_number,
+                        claim_id
+                    ));
+                }
+            }
+
             for (i, claim) in claims.iter().enumerate() {
                 // check provider and sector matches
                 if claim.provider != rt.message().receiver().id().unwrap() {
